@@ -246,7 +246,7 @@ func c14Run(f []string) (ans string) {
 		return c14Lines(vt)
 	case "histow":
 		// col uni sc fmt bar pct maxLines script: any sequence of WriteForLine / UpdateTotal calls on one HistoWriter
-		// (script steps `<line>:<hex key>:<val>` or `T:<total>`); a line equal to len(items) indexes out of range
+		// (script steps `<line>:<hex key>:<val>` or `T:<total>`); a line at or beyond len(items) is ignored (4855857; a panic of the real code answers `panic`)
 		c14Globals(f[1], f[2])
 		maxLines, _ := strconv.Atoi(f[7])
 		vt := multiterm.NewVirtualTerm()
@@ -858,8 +858,8 @@ func c14GenHistoW(r *Rand) string {
 		switch {
 		case r.Chance(1, 12):
 			line = maxLines + 1 + r.Intn(3) // ignored
-		case r.Chance(1, 40):
-			line = maxLines // the off-by-one of WriteForLine: index out of range (model: panic)
+		case r.Chance(1, 10):
+			line = maxLines // exactly len(items): ignored (indexed out of range before 4855857)
 		case line == maxLines:
 			line = r.Intn(maxLines + 1)
 			if line == maxLines {
@@ -1153,7 +1153,7 @@ func c14Gen(r *Rand, tier string) []string {
 		}
 		recT(nil)
 		// exhaustive: WriteForLine / UpdateTotal scripts of up to three steps on a histogram of two lines: both lines, the
-		// off-by-one line (panic), a line beyond, a short and a column-widening key, values 0 / 3 / 7, a total
+		// line == len(items) (ignored since 4855857), a line beyond, a short and a column-widening key, values 0 / 3 / 7, a total
 		var hsteps []string
 		for line := 0; line <= 3; line++ {
 			for _, k := range []string{"a", "seventeen-chars-k"} {
